@@ -253,6 +253,58 @@ pub fn long_scenarios(kind: Kind, probe: fn() -> Box<dyn Probe>) -> Vec<LinkScen
     out
 }
 
+/// scale class: a link outage (every packet of both directions lost) of 1 s, 3.25 s and 10 s that begins while a
+/// sliced message is partly delivered / partly acknowledged (the faults of the first two ticks decide which part);
+/// 3 s is the age at which the library forgets sent-packet records and stale unreliable fragments
+pub fn outage_scenarios(kind: Kind, probe: fn() -> Box<dyn Probe>, tier: Tier) -> Vec<LinkScenario<fn() -> Box<dyn Probe>>> {
+    let mut out = vec![];
+    for dir in 0..2usize {
+        for n in [4u32, 13, 40] {
+            if tier == Tier::Quick && ((dir == 1 && n != 13) || (dir == 0 && n == 4)) {
+                continue;
+            }
+            let mut cfg = LinkCfg::base(
+                &format!("3601+1 then an outage of {} ms from tick 2, dir{}", n * 250, dir),
+                vec![Chan::new(0, kind, 100_000, 300)],
+                vec![Chan::new(0, kind, 100_000, 300)],
+            );
+            cfg.dt_ms = vec![250];
+            cfg.horizon = 2;
+            cfg.outage = Some((2, 2 + n));
+            cfg.tail = n + 8;
+            cfg.script = vec![Send { tick: 0, dir, ch: 0, len: 3601 }, Send { tick: 0, dir, ch: 0, len: 1 }];
+            out.push(LinkScenario { cfg, probe });
+        }
+    }
+    out
+}
+
+/// scale class: more than 64 acknowledgement ranges pending at the receiver (every second data packet lost for three
+/// ticks while the receiver's ack packets are lost too, so nothing trims the list), then the link recovers
+pub fn many_ranges_scenarios(kind: Kind, probe: fn() -> Box<dyn Probe>) -> Vec<LinkScenario<fn() -> Box<dyn Probe>>> {
+    let mut out = vec![];
+    for dir in 0..2usize {
+        let mut cfg = LinkCfg::base(
+            &format!("180000-byte message, every second data packet lost in ticks 0-2, acks lost in ticks 0-1, dir{}", dir),
+            vec![Chan::new(0, kind, 400_000, 300)],
+            vec![Chan::new(0, kind, 400_000, 300)],
+        );
+        cfg.bytes_per_tick = 60_000;
+        cfg.dt_ms = vec![100];
+        cfg.horizon = 4;
+        cfg.tail = 30;
+        cfg.alt_drop = Some((dir, 0, 3));
+        cfg.dir_outage = Some((1 - dir, 0, 2));
+        cfg.fates = vec![crate::link::Fate::Ok, crate::link::Fate::Drop];
+        cfg.drains = vec![crate::link::Drain::End];
+        cfg.allow_reverse = false;
+        cfg.faults_dir = [dir == 1, dir == 0];
+        cfg.script = vec![Send { tick: 0, dir, ch: 0, len: 180_000 }, Send { tick: 0, dir, ch: 0, len: 7 }];
+        out.push(LinkScenario { cfg, probe });
+    }
+    out
+}
+
 fn lazy_probe() -> Box<dyn Probe> {
     let mut p = OrderedProbe::new();
     p.lazy_app = true;
@@ -296,6 +348,14 @@ pub fn run(tier: Tier) -> i32 {
     if rep.machinery.is_none() {
         super::run_link_scenarios_from(&mut rep, "m2-lazy-app", &lazy_scenarios(), tier.pick(3, 4), tier.pick(120.0, 3000.0), 2000);
     }
+    if rep.machinery.is_none() {
+        let outage = outage_scenarios(Kind::Ordered, (|| Box::new(OrderedProbe::new()) as Box<dyn Probe>) as fn() -> Box<dyn Probe>, tier);
+        super::run_link_scenarios_from(&mut rep, "m2-outage", &outage, tier.pick(2, 3), tier.pick(120.0, 3000.0), 3000);
+    }
+    if rep.machinery.is_none() {
+        let many = many_ranges_scenarios(Kind::Ordered, (|| Box::new(OrderedProbe::new()) as Box<dyn Probe>) as fn() -> Box<dyn Probe>);
+        super::run_link_scenarios_from(&mut rep, "m2-many-ack-ranges", &many, tier.pick(1, 2), tier.pick(120.0, 3000.0), 4000);
+    }
     {
         let ks: Vec<usize> = tier.pick(vec![257, 1100], vec![255, 256, 257, 1024, 1100, 5000]);
         for &k in &ks {
@@ -319,6 +379,14 @@ pub fn replay(j: &J) -> i32 {
     };
     if j.get("kind").and_then(|k| k.as_str()) == Some("trace") {
         return super::soup::replay_soup(j, Kind::Ordered, super::soup::O_ORDER);
+    }
+    if j.get("scenario_index").and_then(|x| x.as_i()).unwrap_or(0) >= 4000 {
+        let many = many_ranges_scenarios(Kind::Ordered, (|| Box::new(OrderedProbe::new()) as Box<dyn Probe>) as fn() -> Box<dyn Probe>);
+        return super::replay_link_from(&many, j, 4000);
+    }
+    if j.get("scenario_index").and_then(|x| x.as_i()).unwrap_or(0) >= 3000 {
+        let outage = outage_scenarios(Kind::Ordered, (|| Box::new(OrderedProbe::new()) as Box<dyn Probe>) as fn() -> Box<dyn Probe>, tier);
+        return super::replay_link_from(&outage, j, 3000);
     }
     if j.get("scenario_index").and_then(|x| x.as_i()).unwrap_or(0) >= 2000 {
         return super::replay_link_from(&lazy_scenarios(), j, 2000);
